@@ -5,6 +5,7 @@ package main
 // operation is re-executed once per call index with exactly that call failing.
 
 import (
+	"bytes"
 	"errors"
 	"fmt"
 	"os"
@@ -448,6 +449,16 @@ func faultOracle(s *Spec, keys [][]byte, stats *faultStats, pairs bool) func(w *
 						}
 					}
 				}
+				// a commit that reported a failure and wrote nothing: the instance must go on reporting the versions the
+				// store has (the bookkeeping of the live instance may not run ahead of a commit that did not happen)
+				if pv == nil && opErr != nil && faulted && liveV == nil && op.Kind == OpSave && sameDump(img, pre) {
+					wB.VS.FailAt = nil
+					wB.M = preM.Clone()
+					if vv := safely("version queries", func() *Violation { return latestVersionQueries(wB.Tree, preM) }); vv != nil {
+						liveV = viol("fault-write", "%s with storage call %d of %d (inside %s) failing reported an error and wrote nothing, but the version bookkeeping of the live instance changed: %s: %s", op, i, n, site, vv.Oracle, vv.Detail)
+						liveV.Facts = map[string]any{"op": opNames[op.Kind], "site": site, "symptom": "versions-after-failed-commit", "class": "other", "reported": "reported an error"}
+					}
+				}
 				// a reported failure, then a retry of the same call on the same live instance without faults (transient
 				// error): if the retry reports success, the instance must read like the state after the operation
 				// Only for the operations that (re)establish the instance's state from the storage - Load, LoadVersion,
@@ -677,4 +688,45 @@ func init() {
 		}
 		return false
 	}
+}
+
+// sameDump: two stores hold exactly the same pairs.
+func sameDump(a, b *vstore.Store) bool {
+	da, db := a.Dump(), b.Dump()
+	if len(da) != len(db) {
+		return false
+	}
+	for i := range da {
+		if !bytes.Equal(da[i].K, db[i].K) || !bytes.Equal(da[i].V, db[i].V) {
+			return false
+		}
+	}
+	return true
+}
+
+// latestVersionQueries: what the instance reports about the upper end of the version range equals the model
+// (GetLatestVersion, VersionExists / GetImmutable of the next version, the last element of AvailableVersions).
+func latestVersionQueries(t *iavl.MutableTree, m *Model) *Violation {
+	lv, err := t.GetLatestVersion()
+	if err != nil || lv != m.Latest {
+		return viol("versions", "GetLatestVersion() = %d, %v; the store holds versions up to %d", lv, err, m.Latest)
+	}
+	next := m.Latest + 1
+	if m.Latest == 0 {
+		next = m.WorkingVersion()
+	}
+	if t.VersionExists(next) {
+		return viol("versions", "VersionExists(%d) = true; the store holds versions up to %d", next, m.Latest)
+	}
+	if _, err := t.GetImmutable(next); err == nil {
+		return viol("versions", "GetImmutable(%d) succeeded; the store holds versions up to %d", next, m.Latest)
+	}
+	av := t.AvailableVersions()
+	if len(av) > 0 && int64(av[len(av)-1]) != m.Latest {
+		return viol("versions", "AvailableVersions() = %v; the store holds versions up to %d", av, m.Latest)
+	}
+	if len(av) == 0 && m.Latest != 0 {
+		return viol("versions", "AvailableVersions() is empty; the store holds versions up to %d", m.Latest)
+	}
+	return nil
 }
